@@ -332,3 +332,63 @@ Fixpoint c09_early_final_walk (me prev_fsm prev_master : Z) (evs : list event) (
 Definition known_c09_early_final (cs : list ncase) : list nat :=
   find_idx (fun c => match c with (n, evs, obss) =>
               c09_early_final_walk (n_me n) (scode (fsm_state n)) (master n) evs obss end) cs.
+
+(* ---------- C06 at node level: planned jobs are filtered before the failure handler is fed ---------- *)
+(* "a process that already has a start or stop job planned is left to that job": the Starter / Stopper are told about the
+   lost instances (JobsInvalidation, which removes from the lost set the processes they take care of) BEFORE the Master
+   hands the remaining lost processes to the failure handler (FailureJob) in the same evaluation. *)
+Fixpoint c06_order (seen_failure : bool) (outs : list output) : bool :=
+  match outs with
+  | [] => true
+  | FailureJob :: r => c06_order true r
+  | JobsInvalidation _ :: r => negb seen_failure && c06_order seen_failure r
+  | Publish _ _ _ _ :: r => c06_order false r      (* a publication separates two evaluations of the loop *)
+  | _ :: r => c06_order seen_failure r
+  end.
+(* every process that was running only on a lost instance is handed to the failure handler by the Master in a working
+   state: the set of instances hosting such a process is recomputed from the EVENTS (an ALL_INFO snapshot with such a
+   process, accepted while the instance is CHECKING) *)
+Fixpoint c06_loss_walk (me : Z) (hosting : list Z) (prev_fsm prev_master : Z) (prev_ist : list (Z * Z * Z * Z * Z))
+                       (evs : list event) (obss : list obs) : bool :=
+  match evs, obss with
+  | e :: re, NOk o :: ro =>
+      let hosting1 :=
+        match e with
+        | AllInfo og (Some true) _ =>
+            match ev_resolved e with
+            | Some j => match ist_state j prev_ist with Some 1 => zadd j hosting | _ => hosting end
+            | None => hosting
+            end
+        | _ => hosting
+        end in
+      (* instances that were active before the event and are STOPPED / ISOLATED after it *)
+      let lost := filter (fun j => match ist_state j prev_ist, ist_state j (obs_ist o) with
+                                   | Some s, Some s' => (Z.eqb s 1 || Z.eqb s 2 || Z.eqb s 3 || Z.eqb s 4)
+                                                        && (Z.eqb s' 0 || Z.eqb s' 5)
+                                   | _, _ => false end) hosting1 in
+      let by_timer := match e with LocalTick _ _ _ => true | _ => false end in
+      (match lost with
+       | [] => true
+       | _ => negb by_timer
+              || negb (Z.eqb prev_master me && Z.eqb (obs_master o) me)
+              || negb (Z.eqb prev_fsm 3 || Z.eqb prev_fsm 4 || Z.eqb prev_fsm 5)
+              || negb (Z.eqb (obs_fsm o) prev_fsm)
+              || existsb (fun x => match x with FailureJob => true | _ => false end) (obs_outs o)
+       end)
+      && c06_loss_walk me (filter (fun j => negb (zmem j lost)) hosting1) (obs_fsm o) (obs_master o) (obs_ist o) re ro
+  | _, _ => true
+  end.
+
+(* only demanded when supvisors_failure_strategy is CONTINUE: with RESYNC / SHUTDOWN the loss of a required instance makes
+   the consistence check decide first (re-synchronisation / shutdown) and the failure handler is deliberately not fed;
+   in DISTRIBUTION that decision (SYNCHRONIZATION) is refused by the transition table — catalogued in
+   C08_decisions_catalogue — and the lost processes are then not handled either (observation F1 in DESIGN §6) *)
+Definition c06_case_ok (c : ncase) : bool :=
+  (match c with (n, evs, obss) =>
+     match o_fstrategy (n_opts n) with
+     | FS_CONTINUE => c06_loss_walk (n_me n) (n_hosting n) (scode (fsm_state n)) (master n) (init_ist n) evs obss
+     | _ => true
+     end end) &&
+  match c with (_, _, obss) =>
+    forallb (fun o => match o with NOk ob => c06_order false (obs_outs ob) | NCrash _ => true end) obss end.
+Definition spec_violations_c06n (cs : list ncase) : list nat := find_idx (fun c => negb (c06_case_ok c)) cs.
